@@ -326,7 +326,7 @@ def register(reg):
     @reg.contract
     class Assign(Contract):
         key = ASSIGN
-        props = ("C01", "C04", "C06", "C07", "C08", "C09", "C10", "C15")
+        props = ("C01", "C04", "C06", "C07", "C08", "C09", "C10", "C15", "C17")
         suspends = False
         result_kind = "seq:ref:" + CI
         modifies = ("Pool._connections", "PR.connection", "Evt.flag", "CI.origin", "CI.idle", "CI.closed", "CI.expired", "CI.avail")
@@ -399,7 +399,7 @@ def register(reg):
                     expired = z3.Select(c.eng.heap_arr(c.st, "CI.expired", BoolS), x)
                     idle = z3.Select(c.eng.heap_arr(c.st, "CI.idle", BoolS), x)
                     surplus = z3.And(idle, idle_now > F(c, s, "Pool._max_keepalive_connections"))
-                    out.append(("cleanup_removes_only_closed_expired_or_surplus_idle", ("C09",), z3.And(z3.BoolVal(len(rem) == 1), z3.Or(closed, expired, surplus))))
+                    out.append(("cleanup_removes_only_closed_expired_or_surplus_idle", ("C09", "C17", "C01"), z3.And(z3.BoolVal(len(rem) == 1), z3.Or(closed, expired, surplus))))
                     out.append(("cleanup_removes_the_connection_it_examined", ("C09", "C06"), x == conn.t if isinstance(conn, VRef) else False))
                 else:
                     if isinstance(conn, VRef):
@@ -760,7 +760,13 @@ def register(reg):
     @reg.contract
     class PBSIter(GeneratorContract):
         key = PBS + ".__aiter__"
-        props = ("C02", "C05", "C15")
+        props = ("C02", "C05", "C15", "C17")
+
+        def checks(self, c):
+            # C17: after 101 / CONNECT 2xx the (empty) body may be read before the caller takes extensions["network_stream"]:
+            # exhausting the body must not release the connection - only an explicit close, a failure or an early exit does
+            calls = [e for e in c.trace if e.name == "call:" + PBS + ".aclose"]
+            return [("exhausting_the_body_does_not_close_the_response", ("C17", "C01"), len(calls) == 0)]
         raises = CONN_RAISES + ["Cancelled", "GeneratorExit"]
         raises_props = ("C15",)
         opaque_iter_raises = CONN_RAISES + ["Cancelled"]
